@@ -68,7 +68,8 @@ META = {
                 "||P - J_l^-1|| <= ||ad||^6/4700); for 1 < ||ad|| < 2pi the documented bound 2||ad||^6/30240/(1-(||ad||/2pi)^2) is measured by the "
                 "mpmath oracle only",
                 "adjoint identity on small-angle branches of the CODED Exp: SO3/RxSO3 exact for every a; SE3 Adj with 0<theta<=eps proved with an "
-                "explicit bounded residual (SE3_Adj_identity_taylor_partial, se3_taylor_defect_bounds), SE3 AdjT there: no theorem; Sim3 with "
+                "explicit bounded residual (SE3_Adj_identity_taylor_partial, SE3_AdjT_identity_taylor_partial, se3_taylor_defect_bounds, se3_taylor_defect_size: the translation blocks differ by at most "
+                "theta^7 |t|/5760 + theta^6 |t|/720); Sim3 with "
                 "0<theta<=eps or 0<|sigma|<=eps: only an exact algebraic unfolding (Sim3_Adj_residual_partial, no size bound), AdjT: no theorem. "
                 "The matrix-level statements (*_hat_Adj/_AdjT, *_exp_Adj/_AdjT) hold for every input but are about matrix(X) and MATHLIB's "
                 "exp of the hat matrix, not about the coded Exp; no theorem here combines them with C01 into a bound for the coded Exp on "
@@ -78,10 +79,12 @@ META = {
                 "(SO3_Jinvp_first_order_one, SE3_Jinvp_first_order_translation: every pure translation, RxSO3_Jinvp_first_order_scale: every pure "
                 "scaling, Sim3_Jinvp_first_order_one: the identity element); no derivative statement for 0 < angle <= eps; Sim3 away from the "
                 "identity: truncation, distance theorems only; ||Log X|| <= eps: exact defect polynomial for "
-                "SO3 (SO3_Jinvp_spec_taylor_partial) and Jinvp(identity, p) = p for all four groups (*_Jinvp_one); otherwise finite differences "
+                "SO3, SE3, RxSO3 (SO3/SE3/RxSO3_Jinvp_spec_taylor_partial, so3Jinvp_taylor_coef_bounds) and Jinvp(identity, p) = p for all four groups (*_Jinvp_one); otherwise finite differences "
                 "and the mpmath oracle on the real code",
                 "Jr = Jl(-x), R(Exp x)·Jr = Jl and the derivative form are proved for eps < ||x|| (and the value 1 at x = 0); on 0<||x||<=eps the "
-                "code returns the identity, for which the clause Jr = Jl(-x) is FALSE by O(eps) (disclosed; so3Jr_small_angle states what it returns)",
+                "code returns the identity, for which the clause Jr = Jl(-x) is FALSE (disclosed; so3Jr_small_angle states what it returns); by how much is a "
+                "theorem: Jl(-x)v = Jr_code(x)v - (1/2 - n/24)(x×v) + (1/6 - n/120)x×(x×v) exactly (so3Jr_taylor_defect_partial), the two defect vectors "
+                "are <= ||x|| ||v||/2 and <= ||x||^2 ||v||/6 (so3Jr_taylor_coef_bounds, so3Jr_taylor_defect_size)",
                 "batching/broadcasting of Adj/AdjT/Jinvp/Jr (incl. the empty-batch `dim = a.shape[-1]` branch of Adj) is not modelled in Lean for "
                 "C05 (C06's subject); covered by the correspondence check only (shape pairs incl. empty, large sizes, split consistency)"],
 }
